@@ -29,6 +29,47 @@ pub fn parse_repl_line(tokens: &Tokens, input: &str) -> Parse {
     Sink::new(events, tokens, input).finish(errors)
 }
 
+/// Verification hooks (compiled only with `--cfg capy_verif`): the event trace the grammar
+/// produced, where every `bump` happened, and where the parser stopped.
+#[cfg(capy_verif)]
+pub mod verif {
+    use super::*;
+
+    #[derive(Debug, Clone, Copy, PartialEq, Eq)]
+    pub enum TraceEvent {
+        StartNode(syntax::NodeKind),
+        FinishNode,
+        AddToken,
+    }
+
+    pub struct Traced {
+        pub parse: Parse,
+        pub events: Vec<TraceEvent>,
+        /// `token_idx` at each `bump`, in order
+        pub bumps: Vec<usize>,
+        pub final_token_idx: usize,
+    }
+
+    pub fn parse_traced(tokens: &Tokens, input: &str, repl_line: bool) -> Traced {
+        let p = Parser::new(tokens, input);
+        let (events, errors, bumps, final_token_idx) = if repl_line {
+            p.parse_traced(grammar::repl_line)
+        } else {
+            p.parse_traced(grammar::source_file)
+        };
+        let trace = events
+            .iter()
+            .map(|e| match e {
+                event::Event::StartNode { kind } => TraceEvent::StartNode(*kind),
+                event::Event::FinishNode => TraceEvent::FinishNode,
+                event::Event::AddToken => TraceEvent::AddToken,
+            })
+            .collect();
+        let parse = Sink::new(events, tokens, input).finish(errors);
+        Traced { parse, events: trace, bumps, final_token_idx }
+    }
+}
+
 pub struct Parse {
     syntax_tree: SyntaxTreeBuf,
     errors: Vec<SyntaxError>,
